@@ -132,16 +132,17 @@ Lemma nonvac16 :
   In e_gcm specs /\ listed known16 e_gcm = false /\ is_neutral e_gcm = false /\
   ftab_get WrappersGen.table (e_id e_gcm) = Some WrappersGen.fn_isal_aes_gcm_enc_128 /\
   must_refuse w_null_src e_gcm /\
-  run WrappersGen.table w_null_src WrappersGen.fn_isal_aes_gcm_enc_128 = Leaf (Some (SConst NULL_SRC)) [] /\
+  (exists tr, run WrappersGen.table w_null_src WrappersGen.fn_isal_aes_gcm_enc_128 = Leaf (Some (SConst NULL_SRC)) tr /\
+              quiet tr = true) /\
   ~ may_refuse w_good e_gcm /\
-  run WrappersGen.table w_good WrappersGen.fn_isal_aes_gcm_enc_128 =
-    Leaf (Some (SConst 0)) [EvCall id_u_aes_gcm_enc_128 (map arg [0;1;2;3;4;5;6;7;8;9])].
+  (exists tr, run WrappersGen.table w_good WrappersGen.fn_isal_aes_gcm_enc_128 = Leaf (Some (SConst 0)) tr /\
+              no_enter tr = [EvCall id_u_aes_gcm_enc_128 (map arg [0;1;2;3;4;5;6;7;8;9])]).
 Proof.
   split; [ left; reflexivity |]. split; [ vm_compute; reflexivity |]. split; [ reflexivity |].
   split; [ vm_compute; reflexivity |].
   split; [ exists (p_src_if 3 4); split; [ vm_compute; tauto | vm_compute; reflexivity ] |].
-  split; [ vm_compute; reflexivity |].
-  split; [| vm_compute; reflexivity ].
+  split; [ vm_compute; eexists; split; reflexivity |].
+  split; [| vm_compute; eexists; split; reflexivity ].
   intros [p [Hp Hv]]. vm_compute in Hp.
   repeat (destruct Hp as [Hp|Hp]; [ subst p; vm_compute in Hv; discriminate |]). destruct Hp.
 Qed.
